@@ -21,6 +21,8 @@ TEXT_CHARS = ["a", "b", "c", "Z", "0", "9", " ", " ", " ", "\t", "\n", "\xa0", "
 # for Python rather than for XML, and text that spells a character or entity reference
 TEXT_CHARS += ["+", "?", "@", "!", "$", "*", "(", ")", ",", "|", "~", "^", "`", "\\", "_", "\u200f", "\u202e", "\ufeff", "\xad",
                "None", "True", "nan", "1_000", "-0", "\u0661\u0662\u0663", "%20", "&#38;", "&#176;C", "&#xB0;", "&lt;", "&quot;", "&nbsp;"]
+# DEL and the C1 controls: legal (if discouraged) XML 1.0 characters - Windows-1252 punctuation read as Latin-1 ends up here
+TEXT_CHARS += ["\x7f", "\x80", "\x84", "\x86", "\x92", "\x96", "\x9f"]
 ATTR_CHARS = [c for c in TEXT_CHARS if c not in ("\t", "\n", "\x85", " ")]
 
 
